@@ -14,3 +14,5 @@ import QlibcModel.Props.C05
 #print axioms Qlibc.Props.C05.null_args_rejected
 #print axioms Qlibc.Props.C05.inv_is_identity
 #print axioms Qlibc.Props.C05.valid_args_are_ops
+#print axioms Qlibc.Shapes.Hashtbl.widths_as_modelled
+#print axioms Qlibc.Shapes.Hashtbl.no_hidden_static_state
